@@ -148,7 +148,7 @@ func checkC04(c *core.Ctx, pc pcase) {
 		return
 	}
 	// every exported argument-free method of the returned value (and of library values it returns)
-	obs := lib.Observe(out.Val, lib.ObserveOpts{Depth: 1, WithArgs: true, Before: func(name string) {
+	obs := lib.Observe(out.Val, lib.ObserveOpts{Depth: 1, WithArgs: true, UnaryFuncs: true, Before: func(name string) {
 		c.Call(pc.p.ID()+"->"+name, pc.in, func() {})
 	}})
 	c.BucketN("methods_invoked", int64(len(obs)))
